@@ -150,6 +150,19 @@ def documents(tier):
     extra = [('assignment', 'W', '0.1*X + Y'), ('rate', 'Z', 'k1 + 0.2*X'), ('rate', 'Y', '0.05*X'), ('assignment', 'q', '2*k2 + X/10')]
     for seq in itertools.permutations(extra, 3 if tier == 'quick' else 4):
         out.append(dict(tag='rules:mixed', species=sp4, params=par4, rules=list(seq), reactions=rx4))
+    # rate rules whose right-hand side is negative, starts with a unary minus, or changes sign over the evaluation states
+    # (a rate rule is a signed derivative, not a propensity: every term keeps its own sign)
+    signed = ['-k1*X + k2', '-k1*X - k2', '-(k1*X + k2)', '-k1*X', 'k2 - k1*X', '-Z/k1 + k2*g', '-X', '-1', '-k1*X*Y - k2 + Z',
+              '-(-k1*X) - k2', '(-k1)*X + k2', '-k1^2 + X', '- k1 + 0.2*X - 0.1*Y']
+    for f in signed:
+        for var in ('Z', 'g'):
+            if var in f:
+                continue
+            for with_rx in (True, False):
+                out.append(dict(tag='rules:signed-rate', species=sp4, params=par4, rules=[('rate', var, f)], reactions=rx4 if with_rx else []))
+    for f1, f2 in (('-k1*X + k2', '-0.3*Y + q'), ('-k2 - k1*X', '-(X - Y)')):
+        out.append(dict(tag='rules:signed-rate', species=sp4, params=par4,
+                        rules=[('rate', 'Z', f1), ('assignment', 'q', '2*k2 + X/10'), ('rate', 'g', f2)], reactions=rx4))
     return out
 
 
